@@ -304,9 +304,10 @@ Proof. intros m s s' H; unfold swallow; rewrite H; reflexivity. Qed.
 (* ---------------------------------------------------------------------------------------------------------- *)
 (* Part 3: witnesses (vm_compute).  e0 = the staging area used by the harness. *)
 Definition e0 : files := [(0, 100); (1, 101); (2, 102); (3, 103)].
-Definition nofix_ptr := mkcfg false true true.
-Definition nofix_sp := mkcfg true false true.
-Definition nofix_dc := mkcfg true true false.
+Definition nofix_ptr := mkcfg false true true true.
+Definition nofix_sp := mkcfg true false true true.
+Definition nofix_dc := mkcfg true true false true.
+Definition nofix_et := mkcfg true true true false.
 Definition with_fuse (j : nat) (s : st) := set_fuse (Some j) s.
 
 Definition prog_ptr := PBlock [POp (Put 0 1); PTry (PBlock [PFail]); PFail].
